@@ -5,7 +5,9 @@ import (
 	"crypto/sha256"
 	"encoding/hex"
 	"fmt"
+	"os"
 	"os/exec"
+	"path/filepath"
 	"strconv"
 	"strings"
 	"time"
@@ -136,6 +138,34 @@ func c19Run(c *fw.Ctx) fw.Outcome {
 	c.Count("rewrites_after_other_lists", int64(len(allWriters)))
 	if after := deepDump(s); after != before {
 		return fw.Bad(key, desc, "a writer modified the cue list it was given ({%s}): %s", desc, firstDiff(before, after))
+	}
+	// (i) the same list through the file-level helper gives the same bytes whatever the path held before: nothing, the
+	// same document, or an earlier and longer one
+	if c.Idx%4 == 0 {
+		exts := map[string]string{"srt": "srt", "ssa": "ssa", "stl": "stl", "ttml": "ttml", "webvtt": "vtt"}
+		for _, w := range allWriters {
+			if soloErr[w.name] {
+				continue
+			}
+			path := filepath.Join(c.TmpDir(), "c19-file."+exts[w.name])
+			for round, before := range [][]byte{nil, solo[w.name], append(append([]byte(nil), solo[w.name]...), bytes.Repeat([]byte("left over from an earlier, longer file\n"), 120)...)} {
+				os.Remove(path)
+				if before != nil {
+					os.WriteFile(path, before, 0o644)
+				}
+				var err error
+				if p := guard(func() { err = s.Write(path) }); p != "" || err != nil {
+					os.Remove(path)
+					return fw.Bad(key, desc, "Subtitles.Write to a .%s file fails (%v %s) on a list its writer accepts ({%s})", exts[w.name], err, p, desc)
+				}
+				got, _ := os.ReadFile(path)
+				os.Remove(path)
+				if !bytes.Equal(got, solo[w.name]) {
+					return fw.Bad(key, desc, "Subtitles.Write to a .%s file (round %d: the path held %d bytes before) leaves %d bytes that differ from the writer's own output of %d bytes ({%s}): %s", exts[w.name], round, len(before), len(got), len(solo[w.name]), desc, firstDiff(string(solo[w.name]), string(got)))
+				}
+				c.Count("file_level_writes_compared", 1)
+			}
+		}
 	}
 	// (h) a list that has been written before and is then edited in place through its public fields is written like a
 	// fresh list with the same content: a writer keeps nothing about a list from one call to the next
@@ -275,7 +305,7 @@ func init() {
 	fw.Register(&fw.Property{
 		ID:          "C19",
 		Level:       "exploration",
-		Rule:        "case = one cue list with 0..6 styles and 0..6 regions having heterogeneous attribute subsets (SSA attribute subsets, TTML attributes, WebVTT STYLE lines spread over several styles, styles without inline attributes, parents), metadata of every format present or absent, STL dates both/one/none. Oracle: (a) each of the 5 writers run 50 times on the list gives one distinct output; (b) driver phase: the same lists written in 4 (thorough 8) fresh processes give the same hashes; (c) a pointer-graph-aware deep dump of the list is identical before and after every write; (d) writing to the five formats in 24 (thorough: all 120) different orders on one list object gives the solo outputs; (e) under two different injected clocks all outputs are identical except STL when the metadata lacks a date, and then only GSI bytes 224..235 differ; (f) the package state digest (verif hook) and the data-segment digests (every package-level variable of the library as linked into the monitor, byte for byte and through slices/strings/pointers using the debug information) are unchanged at the end of the worker; (h) the list, written before, is edited in place (times, texts, bold/italic, tags) and must then be written exactly like a fresh list edited the same way; (g) after three other lists have gone through all writers and the list itself through the TTML writer with three indentation options, every writer still gives the solo output. distinct_nontrivial = distinct lists.",
+		Rule:        "case = one cue list with 0..6 styles and 0..6 regions having heterogeneous attribute subsets (SSA attribute subsets, TTML attributes, WebVTT STYLE lines spread over several styles, styles without inline attributes, parents), metadata of every format present or absent, STL dates both/one/none. Oracle: (a) each of the 5 writers run 50 times on the list gives one distinct output; (b) driver phase: the same lists written in 4 (thorough 8) fresh processes give the same hashes; (c) a pointer-graph-aware deep dump of the list is identical before and after every write; (d) writing to the five formats in 24 (thorough: all 120) different orders on one list object gives the solo outputs; (e) under two different injected clocks all outputs are identical except STL when the metadata lacks a date, and then only GSI bytes 224..235 differ; (f) the package state digest (verif hook) and the data-segment digests (every package-level variable of the library as linked into the monitor, byte for byte and through slices/strings/pointers using the debug information) are unchanged at the end of the worker; (h) the list, written before, is edited in place (times, texts, bold/italic, tags) and must then be written exactly like a fresh list edited the same way; (g) after three other lists have gone through all writers and the list itself through the TTML writer with three indentation options, every writer still gives the solo output; (i) every fourth list also goes through Subtitles.Write to a path that held nothing, the same document, or a longer earlier file: the file must hold the writer's own bytes. distinct_nontrivial = distinct lists.",
 		Assumptions: []string{"map iteration order is randomised by the Go runtime on every range statement, so 50 repetitions expose order dependence with overwhelming probability when at least two map entries contribute"},
 		Cases:       func(tier string) int64 { return tierN(tier, 300, 20000) },
 		Setup: func(c *fw.Ctx) error {
